@@ -167,7 +167,7 @@ def handleE (E : EOps) (raw : Bool) : List String → String
             | "div" => fmtRes E (E.div a b)
             | _ => s!"{fmt E (E.conj (E.mul a b))} {fmt E (E.conj (E.add a b))}"
           | _ => "-"
-    | "sq" | "dbl" | "neg" | "inv" | "conj" | "frob" | "ser" =>
+    | "sq" | "dbl" | "neg" | "inv" | "conj" | "frob" | "ser" | "cube" =>
       match nums? rest with
       | none => "bad-op"
       | some ws =>
@@ -181,9 +181,11 @@ def handleE (E : EOps) (raw : Bool) : List String → String
             | "neg" => fmt E (E.neg a)
             | "inv" => fmtRes E (E.inv a)
             | "ser" => s!"{hexOf (ExtBytes.toBytes E.I a)} {hexOf (ExtBytes.asBytes E.I a)}"
+            -- `cube` (trait default): residues of (a * a) * a
+            | "cube" => joinNat ((E.mul (E.mul a a) a).map E.I.asInt)
             | _ => fmt E (E.conj a)
           | _ => "-"
-    | "mulbase" | "exp" | "basee" =>
+    | "mulbase" | "exp" | "basee" | "expv" =>
       match nums? rest with
       | none => "bad-op"
       | some ws =>
@@ -197,6 +199,8 @@ def handleE (E : EOps) (raw : Bool) : List String → String
               | some b => fmt E (E.mulBase a b)
               | none => "-"
             | "exp" => fmt E (E.exp a (if E.I.wordBits == 64 then x % 2 ^ 64 else x))
+            -- `exp_vartime` denotes the same function as `exp`; residues only
+            | "expv" => joinNat ((E.exp a (if E.I.wordBits == 64 then x % 2 ^ 64 else x)).map E.I.asInt)
             | _ =>
               match E.baseElement a x with
               | some b => s!"{E.I.asInt b} {b}"
